@@ -6,9 +6,10 @@ import I2P.Driver.BaseOps
 import I2P.Driver.NetOps
 import I2P.Driver.VerifyOps
 import I2P.Driver.C16Ops
+import I2P.Driver.SpecOps
 open I2P.Driver
 
-def allOps : List (String × Op) := dataOps ++ kacOps ++ structOps ++ timeOps ++ baseOps ++ netOps ++ verifyOps ++ c16Ops
+def allOps : List (String × Op) := dataOps ++ kacOps ++ structOps ++ timeOps ++ baseOps ++ netOps ++ verifyOps ++ c16Ops ++ specOps
 
 def step (line : String) : String :=
   match line.trimAscii.toString.splitOn " " with
